@@ -1,4 +1,46 @@
-import Emitter.Model.Broker
+/-
+  C18 — Presence reports who is subscribed (broker model; default matcher or any).
+-/
+import Emitter.Lemmas.Broker
 namespace Emitter.C18
-theorem placeholder : True := trivial
+open Emitter Emitter.Trie Emitter.Security Emitter.Broker
+
+/-- A presence status request lists exactly the live connections that would currently receive
+a message published to the channel: the `who` list is the filter of the connections by this
+condition (rendered with their usernames). -/
+theorem status_exact (b : B) (h : Sync b) (ssid : Path) (c : Conn) (hc : c ∈ b.conns) :
+    (c.alive && ((b.trie.root.lookup b.mode ssid).eraseDups).contains c.key) = true ↔
+      c.alive = true ∧ receives b.mode c ssid := Broker.receivers_spec b h ssid c hc
+
+/-- exactly one 'subscribe' notification for each subscription a connection makes (none for a
+repeated subscribe of the same filter) … -/
+theorem subscribe_notifies_once (b : B) (c : Conn) (ssid : Path) (channel : Bytes) :
+    (subscribeConn b c ssid channel).2 =
+      if c.counters.any (·.ssid == ssid) then []
+      else notify (subscribeConn b c ssid channel).1 "subscribe"
+             { c with counters := c.counters ++ [⟨ssid, channel, 1⟩] } ssid channel :=
+  Broker.subscribeConn_out b c ssid channel
+
+/-- … and one 'unsubscribe' when it ends (by unsubscribing or by the connection going away:
+`Close` runs `unsubscribeConn` for every counter); none for something not held -/
+theorem unsubscribe_notifies_once (b : B) (c : Conn) (ssid : Path) (channel : Bytes)
+    (h1 : ∀ ctr ∈ c.counters, ctr.count = 1) :
+    (unsubscribeConn b c ssid channel).2 =
+      if c.counters.any (·.ssid == ssid) then
+        notify (unsubscribeConn b c ssid channel).1 "unsubscribe"
+          { c with counters := c.counters.filter (·.ssid != ssid) } ssid channel
+      else [] := Broker.unsubscribeConn_out b c ssid channel h1
+
+/-- a notification reaches exactly the clients that asked for changes on that channel or on a
+parent of it and have not cancelled (their presence subscription is an ordinary counter) -/
+theorem notification_receivers (b : B) (h : Sync b) (event : String) (c : Conn) (ssid : Path) (channel : Bytes)
+    (n : String) (p : Pkt) :
+    (n, p) ∈ notify b event c ssid channel ↔
+      (∃ f, p = .json (strBytes "emitter/presence/") f) ∧
+      ∃ w ∈ b.conns, w.name = n ∧ w.alive = true ∧ receives b.mode w (presenceSsid ssid) :=
+  Broker.notify_receivers b h event c ssid channel n p
+
+theorem sync_step (auth : Auth) (b : B) (name : String) (r : Req) (h : Sync b) :
+    Sync (step auth b name r).1 := Broker.sync_step auth b name r h
+
 end Emitter.C18
